@@ -133,9 +133,9 @@ def extract(config="mip04", repo=None, quiet=False):
         os.rename(tmp, out)
         if not quiet:
             sys.stderr.write("[facts] extracted %s in %.1fs -> %s\n" % (config, time.time() - t0, out))
-        # keep the cache small: retain the 6 most recent tree hashes
+        # keep the cache bounded (15 MB per tree); enough entries that parallel self-test workers do not evict each other
         roots = sorted(glob.glob(os.path.join(CACHE, "facts", "*")), key=os.path.getmtime)
-        for old in roots[:-12]:
+        for old in roots[:-64]:
             shutil.rmtree(old, ignore_errors=True)
         return out
     finally:
